@@ -292,7 +292,7 @@ theorem rloopQB_ext (run run' : St → Res) (h : ∀ st, Ext (run st) (run' st))
   unfold rloopQB
   cases cmpPath s.c.vars s.c.chQB ls.src with
   | none => intro _; rfl
-  | some p => exact rloopWith_ext run run' h runElse runElse' helse { ls with src := p } s
+  | some p => exact rloopWith_ext run run' h runElse runElse' helse { ls with src := p } { s with c := { s.c with err := none } }
 
 theorem rloopQB_err (run : St → Res) (runElse : Option (St → Res))
     (helse : ∀ re, runElse = some re → ∀ s, (re s).err = none) (ls : RLoopSpec) (s : St) :
@@ -300,7 +300,7 @@ theorem rloopQB_err (run : St → Res) (runElse : Option (St → Res))
   unfold rloopQB
   cases cmpPath s.c.vars s.c.chQB ls.src with
   | none => rfl
-  | some p => exact rloopWith_err run runElse helse { ls with src := p } s
+  | some p => exact rloopWith_err run runElse helse { ls with src := p } { s with c := { s.c with err := none } }
 
 /-- The loop node turns `ctx.Err` into the returned error: a loop that ran out of fuel returns `outOfFuel`. -/
 theorem loopNode_ext (loop loop' : St → Res) (hnone : ∀ s, (loop s).err = none) (h : ∀ s, ExtC (loop s) (loop' s)) (s : St) :
